@@ -201,7 +201,7 @@ Definition f32v : numvis dval :=
 
 (* deserialize_number!(deserialize_i8 => visit_i8) ... : default build = deserialize_any; arbitrary_precision:
    `visitor.$visit(self.n.parse().map_err(|_| invalid_number())?)` — the parsed value is in the target's range, so the
-   seed's visitor accepts it *)
+   seed's visitor accepts it; the f32 / f64 arms (`finite`) reject a parse result that is not finite *)
 Definition number_de_int (cf : cfg) (fx : fenv) (t : intty) (n : num) : vres dval :=
   if arbitrary_precision cf then
     match std_parse_int (int_signed t) (int_min t) (int_max t) (number_text n) with
@@ -213,7 +213,8 @@ Definition number_de_int (cf : cfg) (fx : fenv) (t : intty) (n : num) : vres dva
 Definition number_de_f64 (cf : cfg) (fx : fenv) (n : num) : vres dval :=
   if arbitrary_precision cf then
     match std_parse_f64 (number_text n) with
-    | Some f => VOk (dfloat f)                      (* no finiteness check *)
+    | Some f => if b64_is_finite f then VOk (dfloat f)
+                else VErr NumberOutOfRange 0 0      (* "never produce an infinite float": Error::syntax(NumberOutOfRange, 0, 0) *)
     | None => VErr InvalidNumber 0 0
     end
   else number_any cf fx n f64v.
@@ -221,7 +222,8 @@ Definition number_de_f64 (cf : cfg) (fx : fenv) (n : num) : vres dval :=
 Definition number_de_f32 (cf : cfg) (fx : fenv) (n : num) : vres dval :=
   if arbitrary_precision cf then
     match std_parse_f32 (number_text n) with
-    | Some f => VOk (dfloat (b64_of_b32 f))         (* visit_f32: widened *)
+    | Some f => if b64_is_finite (b64_of_b32 f) then VOk (dfloat (b64_of_b32 f))         (* visit_f32: widened *)
+                else VErr NumberOutOfRange 0 0
     | None => VErr InvalidNumber 0 0
     end
   else number_any cf fx n f32v.
@@ -625,8 +627,8 @@ Fixpoint de_value_ref (fuel : nat) (cf : cfg) (fx : fenv) (t : ty) (v : value) {
   end.
 
 (* ---- entry points ------------------------------------------------------------------------------------------------------------ *)
-(* every recursive call is on a component of the type program: its nesting bounds the recursion *)
-Definition value_de_fuel (t : ty) : nat := ty_depth t.
+(* every recursive call is on a component of the type program (ByteBuf's elements: one more level): its nesting bounds the recursion *)
+Definition value_de_fuel (t : ty) : nat := S (ty_depth t).
 
 (* from_value::<T>(v)  =  T::deserialize(v) *)
 Definition from_value_owned (cf : cfg) (fx : fenv) (t : ty) (v : value) : vres dval :=
